@@ -9,22 +9,31 @@ import (
 	"encoding/hex"
 	"math/big"
 	"reflect"
+	"sort"
 	"sync/atomic"
 
 	"github.com/consensys/gnark-crypto/ecc"
 	curve "github.com/consensys/gnark-crypto/ecc/bn254"
+	"github.com/consensys/gnark-crypto/ecc/bn254/fflonk"
 	"github.com/consensys/gnark-crypto/ecc/bn254/fp"
 	"github.com/consensys/gnark-crypto/ecc/bn254/fr"
 	"github.com/consensys/gnark-crypto/ecc/bn254/fr/fft"
+	"github.com/consensys/gnark-crypto/ecc/bn254/fr/fri"
 	"github.com/consensys/gnark-crypto/ecc/bn254/fr/iop"
 	"github.com/consensys/gnark-crypto/ecc/bn254/fr/mimc"
+	"github.com/consensys/gnark-crypto/ecc/bn254/fr/pedersen"
+	"github.com/consensys/gnark-crypto/ecc/bn254/fr/permutation"
+	"github.com/consensys/gnark-crypto/ecc/bn254/fr/plookup"
 	"github.com/consensys/gnark-crypto/ecc/bn254/fr/polynomial"
 	"github.com/consensys/gnark-crypto/ecc/bn254/fr/poseidon2"
 	"github.com/consensys/gnark-crypto/ecc/bn254/kzg"
+	"github.com/consensys/gnark-crypto/ecc/bn254/shplonk"
 	"github.com/consensys/gnark-crypto/ecc/bn254/twistededwards"
 	ghash "github.com/consensys/gnark-crypto/hash"
 )
 
+// Shapes >= 16 (`C18 par …` lines) are the sizes ABOVE the thresholds at which an entry point switches to its goroutine /
+// parallel.Execute implementation (c18Par(shape)); the low 4 bits vary the size among such sizes.
 func init() {
 	const name = "bn254"
 	reg := func(entry string, mk c18Maker) { c18Makers[entry+"/"+name] = mk }
@@ -93,6 +102,9 @@ func init() {
 			// shapes: 0 = smallest SRS (2), ONE polynomial of degree 1; 1 = ONE constant polynomial; 2 = ONE full-size
 			// polynomial; 3 = two polynomials; otherwise 1..4 polynomials of random sizes
 			size := c18Pick(shape, 2, 4, 16, func() int { return 8 << r.intn(3) })
+			if c18Par(shape) { // Commit: a multi-exponentiation over >= 128 points; BatchOpenSinglePoint: parallel folding
+				size = 128 << (shape & 1)
+			}
 			srs, err := kzg.NewSRS(uint64(size), r.bigBits(200))
 			if err != nil {
 				panic(err)
@@ -116,6 +128,9 @@ func init() {
 				proofs[nb-1].ClaimedValue = rfr(r)
 			}
 			nbTasks := 1 + r.intn(5)
+			if c18Par(shape) && r.coin() {
+				nbTasks = 0 // the default: 2 x NumCPU tasks
+			}
 			s := &c18Sess{}
 			switch which {
 			case 0:
@@ -129,7 +144,14 @@ func init() {
 				s.call = func() string { pr, err := kzg.Open(polys[0], points[0], srs.Pk); return deepHash(&pr) + c18Err(err) }
 			case 3:
 				s.args = []c18Arg{{"p", &polys[0]}, {"srs", srs}}
-				s.call = func() string { d, err := kzg.Commit(polys[0], srs.Pk, nbTasks); return deepHash(&d) + c18Err(err) }
+				s.call = func() string {
+					if nbTasks == 0 {
+						d, err := kzg.Commit(polys[0], srs.Pk)
+						return deepHash(&d) + c18Err(err)
+					}
+					d, err := kzg.Commit(polys[0], srs.Pk, nbTasks)
+					return deepHash(&d) + c18Err(err)
+				}
 			default:
 				// the batch entry points (one point): polynomials is a slice of slices, all of it is snapshotted
 				data := [][]byte{frBytes(r)}
@@ -161,6 +183,9 @@ func init() {
 			}
 			return 1 + r.intn(40)
 		})
+		if c18Par(shape) { // window sizes with chunk statistics, split chunks, the recursive split of the msm
+			n = 700 + 150*(shape&3) + r.intn(100)
+		}
 		points, scalars := rG1(r, n), rfrs(r, n)
 		n2 := n
 		if n2 > 24 {
@@ -168,6 +193,9 @@ func init() {
 		}
 		points2 := rG2(r, n2)
 		cfg := ecc.MultiExpConfig{NbTasks: []int{0, 1, 2, 3, 5, 16}[r.intn(6)]}
+		if c18Par(shape) {
+			cfg.NbTasks = []int{0, 0, 16, 5, 32, 3}[r.intn(6)]
+		}
 		s := &c18Sess{args: []c18Arg{{"points", &points}, {"scalars", &scalars}, {"pointsG2", &points2}}}
 		s.call = func() string {
 			var a curve.G1Affine
@@ -193,6 +221,11 @@ func init() {
 			n = 1024 << (r.intn(5) / 2 * r.intn(2)) // 2^10 mostly, 2^11, 2^12
 			kind = []int{0, 2, 1}[shape-2]
 		}
+		if c18Par(shape) { // BuildExpTable goes parallel for tables of >= 1409 entries (16 CPUs); butterflies for m > 16
+			n = 2048 << (shape & 1)
+			kind = (shape >> 1) % 3
+		}
+		shift := rfr(r)
 		var d *fft.Domain
 		switch kind {
 		case 0:
@@ -200,10 +233,13 @@ func init() {
 		case 1:
 			d = fft.NewDomain(uint64(n), fft.WithoutPrecompute())
 		default:
-			d = fft.NewDomain(uint64(n), fft.WithShift(rfr(r)))
+			d = fft.NewDomain(uint64(n), fft.WithShift(shift))
 		}
 		a := rfrs(r, n)
 		nbTasks := 1 + r.intn(8)
+		if c18Par(shape) {
+			nbTasks = []int{0, 16, 4, 0}[r.intn(4)] // 0 = the default (NumCPU)
+		}
 		if shape >= 2 && shape <= 4 && r.coin() {
 			nbTasks = 1
 		}
@@ -215,7 +251,10 @@ func init() {
 			if j&1 == 1 {
 				dec = fft.DIT
 			}
-			opts := []fft.Option{fft.WithNbTasks(nbTasks)}
+			var opts []fft.Option
+			if nbTasks > 0 {
+				opts = append(opts, fft.WithNbTasks(nbTasks))
+			}
 			if j&2 != 0 {
 				opts = append(opts, fft.OnCoset())
 			}
@@ -239,13 +278,33 @@ func init() {
 			}
 			// round trips and the exported tables of the domain
 			b := c18Clone(a)
-			d.FFT(b, fft.DIF, fft.OnCoset(), fft.WithNbTasks(nbTasks))
-			d.FFTInverse(b, fft.DIT, fft.OnCoset(), fft.WithNbTasks(nbTasks))
+			rt := []fft.Option{fft.OnCoset()}
+			if nbTasks > 0 {
+				rt = append(rt, fft.WithNbTasks(nbTasks))
+			}
+			d.FFT(b, fft.DIF, rt...)
+			d.FFTInverse(b, fft.DIT, rt...)
 			ct, err := d.CosetTable()
 			cti, err1 := d.CosetTableInv()
-			return out + boolStr(deepHash(&b) == deepHash(&a)) + deepHash(&ct) + c18Err(err) + deepHash(&cti) + c18Err(err1)
+			out += boolStr(deepHash(&b) == deepHash(&a)) + deepHash(&ct) + c18Err(err) + deepHash(&cti) + c18Err(err1)
+			if c18Par(shape) {
+				// the constructor and the exported table builder are entry points too: same arguments, same tables
+				var d2 *fft.Domain
+				switch kind {
+				case 0:
+					d2 = fft.NewDomain(uint64(n))
+				case 1:
+					d2 = fft.NewDomain(uint64(n), fft.WithoutPrecompute())
+				default:
+					d2 = fft.NewDomain(uint64(n), fft.WithShift(shift))
+				}
+				tbl := make([]fr.Element, n-n/8+3)
+				fft.BuildExpTable(shift, tbl)
+				out += deepHash(d2) + deepHash(&tbl)
+			}
+			return out
 		}
-		s := &c18Sess{args: []c18Arg{{"domain", d}, {"a", &a}}}
+		s := &c18Sess{args: []c18Arg{{"domain", d}, {"a", &a}, {"shift", &shift}}}
 		s.call = func() string { return run(0) }
 		s.concCall = func() string { return run(int(turn.Add(1) * 3)) }
 		return s
@@ -259,6 +318,9 @@ func init() {
 	// ---- batch group operations -----------------------------------------------------------------------------------
 	reg("batchscalarmul", func(r *rng, shape int) *c18Sess {
 		n := c18Pick(shape, 1, 2, 300, func() int { return 1 + r.intn(120) })
+		if c18Par(shape) { // several scalars per worker of parallel.Execute
+			n = 200 + 50*(shape&3) + r.intn(50)
+		}
 		base, base2 := rG1(r, 1)[0], rG2(r, 1)[0]
 		scalars := rfrs(r, n)
 		if r.intn(3) == 0 || shape == 1 {
@@ -278,6 +340,9 @@ func init() {
 	})
 	reg("batchjactoaff", func(r *rng, shape int) *c18Sess {
 		n := c18Pick(shape, 1, 2, 1025, func() int { return 1 + r.intn(200) })
+		if c18Par(shape) {
+			n = 1000 + 300*(shape&3) + r.intn(300)
+		}
 		aff := rG1(r, n)
 		points := make([]curve.G1Jac, n)
 		for i := range points {
@@ -304,6 +369,9 @@ func init() {
 	// ---- iop.Polynomial conversions on clones of a shared polynomial ----------------------------------------------
 	reg("iop", func(r *rng, shape int) *c18Sess {
 		n := c18Pick(shape, 1, 2, 512, func() int { return 4 << r.intn(6) })
+		if c18Par(shape) {
+			n = 1024 << (shape & 1)
+		}
 		d := fft.NewDomain(uint64(n))
 		coeffs := rfrs(r, n)
 		P := iop.NewPolynomial(&coeffs, iop.Form{Basis: iop.Canonical, Layout: iop.Regular})
@@ -312,9 +380,17 @@ func init() {
 		s := &c18Sess{args: []c18Arg{{"p", P}, {"domain", d}, {"x", &x}}}
 		s.call = func() string {
 			q := P.Clone()
-			q.ToLagrange(d, nbTasks).ToRegular()
+			if c18Par(shape) { // the default number of tasks (NumCPU)
+				q.ToLagrange(d).ToRegular()
+			} else {
+				q.ToLagrange(d, nbTasks).ToRegular()
+			}
 			h1 := deepHash(q)
-			q.ToCanonical(d, nbTasks).ToRegular()
+			if c18Par(shape) {
+				q.ToCanonical(d).ToRegular()
+			} else {
+				q.ToCanonical(d, nbTasks).ToRegular()
+			}
 			h2 := deepHash(q)
 			q2 := P.Clone()
 			if n > 1 { // (on a domain of size 1 ToLagrangeCoset reads cosetTable[1]: index out of range, reported under C20)
@@ -331,6 +407,9 @@ func init() {
 	// ---- fr.Vector operations with a fresh destination ------------------------------------------------------------
 	reg("vector", func(r *rng, shape int) *c18Sess {
 		n := c18Pick(shape, 1, 0, 2, func() int { return 1 + r.intn(70) })
+		if c18Par(shape) { // AsyncReadFrom converts the elements on NumCPU goroutines
+			n = 1000 + 500*(shape&3) + r.intn(500)
+		}
 		a, b, c := fr.Vector(rfrs(r, n)), fr.Vector(rfrs(r, n)), rfr(r)
 		s := &c18Sess{args: []c18Arg{{"a", &a}, {"b", &b}, {"c", &c}}}
 		s.call = func() string {
@@ -345,6 +424,15 @@ func init() {
 			res.ScalarMul(a, &c)
 			out += deepHash(&res)
 			sum, ip := a.Sum(), a.InnerProduct(b)
+			// serialisation round trips (ReadFrom / AsyncReadFrom fill a fresh vector)
+			var buf bytes.Buffer
+			_, err := a.WriteTo(&buf)
+			enc := buf.Bytes()
+			var a2, a3 fr.Vector
+			_, err1 := a2.ReadFrom(bytes.NewReader(enc))
+			_, err2, ch := a3.AsyncReadFrom(bytes.NewReader(enc))
+			err3 := <-ch
+			out += deepHash(&enc) + c18Err(err) + deepHash(&a2) + c18Err(err1) + deepHash(&a3) + c18Err(err2) + c18Err(err3)
 			return out + deepHash(&sum) + deepHash(&ip)
 		}
 		return s
@@ -353,6 +441,9 @@ func init() {
 	// ---- Encoder / Decoder ----------------------------------------------------------------------------------------
 	reg("codec", func(r *rng, shape int) *c18Sess {
 		n := c18Pick(shape, 1, 2, 100, func() int { return 1 + r.intn(40) })
+		if c18Par(shape) { // the decoder decompresses slices of points with parallel.Execute
+			n = 150 + 50*(shape&3) + r.intn(50)
+		}
 		ps, qs, es := rG1(r, n), rG2(r, c18Pick(shape, 1, 1, 2, func() int { return 1 + r.intn(4) })), rfrs(r, n)
 		raw := r.coin()
 		encode := func() []byte {
@@ -439,6 +530,414 @@ func init() {
 			h := deepHash(&cl)
 			pool.Dump(cl)
 			return deepHash(&v) + deepHash(&sum) + h
+		}
+		return s
+	})
+
+	// ---- argument systems: provers and builders ---------------------------------------------------------------------
+	// Every input (tables, witnesses, polynomials, digests, points, keys) is snapshotted. The vectors come in ARBITRARY
+	// order (or decreasing / increasing / with repeated values), in sizes that are exactly a power of two ("nothing to
+	// pad") as well as sizes that are not.
+	newSRS := func(r *rng, size int) *kzg.SRS {
+		if size < 2 {
+			size = 2
+		}
+		srs, err := kzg.NewSRS(ecc.NextPowerOfTwo(uint64(size)), r.bigBits(200))
+		if err != nil {
+			panic(err)
+		}
+		return srs
+	}
+	rvec := func(r *rng, n, kind int) fr.Vector {
+		v := fr.Vector(rfrs(r, n))
+		switch kind {
+		case 1: // decreasing
+			sort.Sort(v)
+			for i, j := 0, n-1; i < j; i, j = i+1, j-1 {
+				v[i], v[j] = v[j], v[i]
+			}
+		case 2: // increasing
+			sort.Sort(v)
+		case 3: // repeated values
+			for i := range v {
+				if r.coin() {
+					v[i] = v[r.intn(n)]
+				}
+			}
+		}
+		return v
+	}
+	// sizes (table, witness) of a lookup: 0, 1 = the two smallest tables that fill their domain exactly; 2 = a large
+	// such table; 3 = a table that is padded; 4 = a witness at least as long as the table (the domain follows the witness)
+	lookupSizes := func(r *rng, shape int) (nt, nf int) {
+		switch {
+		case shape == 0:
+			return 2, 1
+		case shape == 1:
+			return 4, 3
+		case shape == 2:
+			return 16, 9
+		case shape == 3:
+			return 12, 5
+		case shape == 4:
+			return 8, 8
+		case c18Par(shape):
+			return 128, 50 + r.intn(70)
+		}
+		if r.coin() { // a power of two, witness shorter: nothing to pad
+			nt = 4 << r.intn(3)
+			return nt, 1 + r.intn(nt-1)
+		}
+		return 3 + r.intn(14), 1 + r.intn(17)
+	}
+	reg("plookupvec", func(r *rng, shape int) *c18Sess {
+		nt, nf := lookupSizes(r, shape)
+		t := rvec(r, nt, []int{0, 0, 0, 1, 3, 2}[r.intn(6)])
+		f := make(fr.Vector, nf)
+		for i := range f {
+			f[i] = t[r.intn(nt)]
+		}
+		if shape > 4 && r.intn(5) == 0 { // a witness outside the table: the rejected proof must be repeatable too
+			f[r.intn(nf)] = rfr(r)
+		}
+		dom := nt
+		if nt <= nf {
+			dom = nf + 1
+		}
+		srs := newSRS(r, 4*int(ecc.NextPowerOfTwo(uint64(dom))))
+		s := &c18Sess{args: []c18Arg{{"f", &f}, {"t", &t}, {"srs", srs}}}
+		s.call = func() string {
+			proof, err := plookup.ProveLookupVector(srs.Pk, f, t)
+			err1 := plookup.VerifyLookupVector(srs.Vk, proof)
+			return deepHash(&proof) + c18Err(err) + c18Err(err1)
+		}
+		return s
+	})
+	reg("plookuptab", func(r *rng, shape int) *c18Sess {
+		nt, nf := lookupSizes(r, shape)
+		if c18Par(shape) {
+			nt, nf = 64, 20+r.intn(40)
+		}
+		rows := c18Pick(shape, 1, 2, 3, func() int { return 1 + r.intn(3) })
+		t := make([]fr.Vector, rows)
+		for i := range t {
+			t[i] = rvec(r, nt, []int{0, 0, 1, 3}[r.intn(4)])
+		}
+		f := make([]fr.Vector, rows)
+		for i := range f {
+			f[i] = make(fr.Vector, nf)
+		}
+		for j := 0; j < nf; j++ {
+			k := r.intn(nt)
+			for i := range f {
+				f[i][j] = t[i][k]
+			}
+		}
+		dom := nt
+		if nt <= nf {
+			dom = nf + 1
+		}
+		srs := newSRS(r, 4*int(ecc.NextPowerOfTwo(uint64(dom))))
+		s := &c18Sess{args: []c18Arg{{"f", &f}, {"t", &t}, {"srs", srs}}}
+		s.call = func() string {
+			proof, err := plookup.ProveLookupTables(srs.Pk, f, t)
+			err1 := plookup.VerifyLookupTables(srs.Vk, proof)
+			return deepHash(&proof) + c18Err(err) + c18Err(err1)
+		}
+		return s
+	})
+	reg("permutation", func(r *rng, shape int) *c18Sess {
+		n := c18Pick(shape, 2, 4, 32, func() int { return 2 << r.intn(5) })
+		if c18Par(shape) {
+			n = 128
+		}
+		t1 := rvec(r, n, []int{0, 0, 1, 3, 2}[r.intn(5)])
+		t2 := make(fr.Vector, n)
+		for i, j := range c18Perm(r, n) {
+			t2[i] = t1[j]
+		}
+		if shape > 2 && r.intn(5) == 0 {
+			t2[r.intn(n)] = rfr(r) // not a permutation
+		}
+		srs := newSRS(r, 4*n)
+		s := &c18Sess{args: []c18Arg{{"t1", &t1}, {"t2", &t2}, {"srs", srs}}}
+		s.call = func() string {
+			proof, err := permutation.Prove(srs.Pk, t1, t2)
+			err1 := permutation.Verify(srs.Vk, proof)
+			return deepHash(&proof) + c18Err(err) + c18Err(err1)
+		}
+		return s
+	})
+	reg("fri", func(r *rng, shape int) *c18Sess {
+		n := c18Pick(shape, 2, 4, 64, func() int { return 2 << r.intn(6) })
+		if c18Par(shape) { // the evaluation domain has rho x n points
+			n = 256 << (shape & 1)
+		}
+		p := rfrs(r, n)
+		pos := uint64(r.intn(n))
+		s := &c18Sess{args: []c18Arg{{"p", &p}}}
+		// the Iopp owns a (stateful) hash: every call takes its own, the polynomial is the shared object
+		s.call = func() string {
+			iopp := fri.RADIX_2_FRI.New(uint64(n), sha256.New())
+			pp, err := iopp.BuildProofOfProximity(p)
+			op, err1 := iopp.Open(p, pos)
+			err2 := iopp.VerifyProofOfProximity(pp)
+			err3 := iopp.VerifyOpening(pos, op, pp)
+			return deepHash(&pp) + c18Err(err) + deepHash(&op) + c18Err(err1) + c18Err(err2) + c18Err(err3)
+		}
+		return s
+	})
+	reg("shplonk", func(r *rng, shape int) *c18Sess {
+		nb := c18Pick(shape, 1, 2, 4, func() int { return 1 + r.intn(3) })
+		maxSize := c18Pick(shape, 2, 1, 16, func() int { return 2 + r.intn(10) })
+		if c18Par(shape) {
+			nb, maxSize = 3, 128
+		}
+		polys := make([][]fr.Element, nb)
+		points := make([][]fr.Element, nb)
+		digests := make([]kzg.Digest, nb)
+		total := 0
+		for i := range polys {
+			polys[i] = rfrs(r, 1+r.intn(maxSize))
+			if shape <= 2 || c18Par(shape) {
+				polys[i] = rfrs(r, maxSize)
+			}
+			points[i] = rvec(r, c18Pick(shape, 1, 2, 3, func() int { return 1 + r.intn(3) }), []int{0, 1}[r.intn(2)])
+			total += len(points[i])
+		}
+		srs := newSRS(r, maxSize+total+4)
+		for i := range polys {
+			digests[i], _ = kzg.Commit(polys[i], srs.Pk)
+		}
+		data := [][]byte{frBytes(r)}
+		if r.coin() {
+			data = nil
+		}
+		s := &c18Sess{args: []c18Arg{{"polynomials", &polys}, {"digests", &digests}, {"points", &points}, {"srs", srs}, {"dataTranscript", &data}}}
+		s.call = func() string {
+			proof, err := shplonk.BatchOpen(polys, digests, points, sha256.New(), srs.Pk, data...)
+			err1 := shplonk.BatchVerify(proof, digests, points, sha256.New(), srs.Vk, data...)
+			return deepHash(&proof) + c18Err(err) + c18Err(err1)
+		}
+		return s
+	})
+	reg("fflonk", func(r *rng, shape int) *c18Sess {
+		nbSets := c18Pick(shape, 1, 2, 3, func() int { return 1 + r.intn(3) })
+		p := make([][][]fr.Element, nbSets)
+		points := make([][]fr.Element, nbSets)
+		maxFolded, total := 0, 0
+		for i := range p {
+			p[i] = make([][]fr.Element, c18Pick(shape, 1, 2, 4, func() int { return 1 + r.intn(5) }))
+			m := 0
+			for j := range p[i] {
+				p[i][j] = rfrs(r, c18Pick(shape, 2, 1, 8, func() int { return 1 + r.intn(10) }))
+				if c18Par(shape) {
+					p[i][j] = rfrs(r, 40+r.intn(8))
+				}
+				if len(p[i][j]) > m {
+					m = len(p[i][j])
+				}
+			}
+			if f := m * int(ecc.NextPowerOfTwo(uint64(len(p[i])))); f > maxFolded {
+				maxFolded = f
+			}
+			points[i] = rvec(r, c18Pick(shape, 1, 2, 2, func() int { return 1 + r.intn(3) }), 0)
+			total += len(points[i]) * int(ecc.NextPowerOfTwo(uint64(len(p[i]))))
+		}
+		srs := newSRS(r, maxFolded+total+4)
+		digests := make([]kzg.Digest, nbSets)
+		for i := range p {
+			digests[i], _ = fflonk.FoldAndCommit(p[i], srs.Pk)
+		}
+		data := [][]byte{frBytes(r)}
+		if r.coin() {
+			data = nil
+		}
+		s := &c18Sess{args: []c18Arg{{"p", &p}, {"digests", &digests}, {"points", &points}, {"srs", srs}, {"dataTranscript", &data}}}
+		s.call = func() string {
+			fo := fflonk.Fold(p[0])
+			d0, err0 := fflonk.FoldAndCommit(p[nbSets-1], srs.Pk)
+			proof, err := fflonk.BatchOpen(p, digests, points, sha256.New(), srs.Pk, data...)
+			err1 := fflonk.BatchVerify(proof, digests, points, sha256.New(), srs.Vk, data...)
+			return deepHash(&fo) + deepHash(&d0) + c18Err(err0) + deepHash(&proof) + c18Err(err) + c18Err(err1)
+		}
+		return s
+	})
+	reg("pedersen", func(r *rng, shape int) *c18Sess {
+		// keys built by hand from the seed (Setup draws sigma from crypto/rand): Basis, sigma·Basis, G, -sigma·G
+		nb := c18Pick(shape, 1, 2, 3, func() int { return 1 + r.intn(3) })
+		var sigma, sigmaNeg big.Int
+		e := rfr(r)
+		e.BigInt(&sigma)
+		sigmaNeg.Neg(&sigma)
+		var vk pedersen.VerifyingKey
+		vk.G = rG2(r, 1)[0]
+		vk.GSigmaNeg.ScalarMultiplication(&vk.G, &sigmaNeg)
+		pks := make([]pedersen.ProvingKey, nb)
+		values := make([][]fr.Element, nb)
+		bases := make([][]curve.G1Affine, nb)
+		for i := range pks {
+			n := c18Pick(shape, 1, 2, 8, func() int { return 1 + r.intn(6) })
+			if c18Par(shape) {
+				n = 40 + r.intn(20)
+			}
+			bases[i] = rG1(r, n)
+			pks[i].Basis = c18Clone(bases[i])
+			pks[i].BasisExpSigma = make([]curve.G1Affine, n)
+			for j := range bases[i] {
+				pks[i].BasisExpSigma[j].ScalarMultiplication(&bases[i][j], &sigma)
+			}
+			values[i] = rfrs(r, n)
+		}
+		coeff := rfr(r)
+		vks := make([]pedersen.VerifyingKey, nb)
+		for i := range vks {
+			vks[i] = vk
+		}
+		s := &c18Sess{args: []c18Arg{{"pk", &pks}, {"vk", &vk}, {"vks", &vks}, {"values", &values}, {"combinationCoeff", &coeff}, {"bases", &bases}}}
+		s.call = func() string {
+			out := ""
+			coms := make([]curve.G1Affine, nb)
+			poks := make([]curve.G1Affine, nb)
+			for i := range pks {
+				var err, err1 error
+				coms[i], err = pks[i].Commit(values[i])
+				poks[i], err1 = pks[i].ProveKnowledge(values[i])
+				out += deepHash(&coms[i]) + c18Err(err) + deepHash(&poks[i]) + c18Err(err1)
+			}
+			out += c18Err(vk.Verify(coms[nb-1], poks[nb-1]))
+			bp, err := pedersen.BatchProve(pks, values, coeff)
+			var err1 error
+			if nb&1 == 1 {
+				err1 = pedersen.BatchVerifyMultiVk(vks, coms, poks, coeff)
+			} else {
+				err1 = pedersen.BatchVerifyMultiVk(vks, coms, []curve.G1Affine{bp}, coeff)
+			}
+			out += deepHash(&bp) + c18Err(err) + c18Err(err1)
+			// Setup is randomised: only its consistency and the purity of `bases` are observed
+			spk, svk, err3 := pedersen.Setup(bases, pedersen.WithG2Point(vk.G))
+			ok := err3 == nil && len(spk) == nb && svk.G == vk.G
+			if ok {
+				c, e1 := spk[0].Commit(values[0])
+				ok = e1 == nil && c == coms[0]
+			}
+			return out + boolStr(ok)
+		}
+		return s
+	})
+	reg("iopratio", func(r *rng, shape int) *c18Sess {
+		// the builders convert their inputs to Lagrange form in place when they are not (documented); inputs already in
+		// Lagrange form (regular or bit reversed layout) are read only
+		n := c18Pick(shape, 2, 4, 64, func() int { return 4 << r.intn(5) })
+		if c18Par(shape) { // BuildRatioCopyConstraint splits the work above n = 116, every other builder per NumCPU
+			n = 1024 << (shape & 1)
+		}
+		m := c18Pick(shape, 1, 2, 3, func() int { return 1 + r.intn(3) })
+		d := fft.NewDomain(uint64(n))
+		mkPoly := func(v []fr.Element, bitrev bool) *iop.Polynomial {
+			if bitrev {
+				fft.BitReverse(v)
+				return iop.NewPolynomial(&v, iop.Form{Basis: iop.Lagrange, Layout: iop.BitReverse})
+			}
+			return iop.NewPolynomial(&v, iop.Form{Basis: iop.Lagrange, Layout: iop.Regular})
+		}
+		num := make([]*iop.Polynomial, m)
+		den := make([]*iop.Polynomial, m)
+		bitrev := shape > 2 && r.coin()
+		all := rfrs(r, n*m)
+		for i := range num {
+			num[i] = mkPoly(c18Clone(all[i*n:(i+1)*n]), bitrev)
+		}
+		perm := c18Perm(r, n*m)
+		sigma := make([]int64, n*m)
+		for i := range den {
+			v := make([]fr.Element, n)
+			for j := range v {
+				v[j] = all[perm[i*n+j]]
+				sigma[i*n+j] = int64(perm[i*n+j])
+			}
+			den[i] = mkPoly(v, bitrev)
+		}
+		beta, gamma := rfr(r), rfr(r)
+		form := iop.Form{Basis: []iop.Basis{iop.Lagrange, iop.Canonical}[r.intn(2)], Layout: []iop.Layout{iop.Regular, iop.BitReverse}[r.intn(2)]}
+		// a quotient: h = f(entries) on the coset of the big domain, divided by X^n - 1
+		f := func(_ int, x ...fr.Element) fr.Element {
+			var a fr.Element
+			a.Square(&x[0]).Mul(&a, &x[len(x)-1]).Add(&a, &x[0])
+			return a
+		}
+		domains := [2]*fft.Domain{d, fft.NewDomain(uint64(4 * n))}
+		ents := make([]*iop.Polynomial, m)
+		for i := range ents {
+			ents[i] = num[i].Clone()
+			ents[i].ToCanonical(domains[0]).ToRegular().ToLagrangeCoset(domains[1]).ToRegular()
+		}
+		h, err := iop.Evaluate(f, nil, iop.Form{Layout: iop.BitReverse, Basis: iop.LagrangeCoset}, ents...)
+		if err != nil {
+			panic(err)
+		}
+		s := &c18Sess{args: []c18Arg{{"numerator", &num}, {"denominator", &den}, {"permutation", &sigma}, {"beta", &beta}, {"gamma", &gamma},
+			{"domain", d}, {"domains", &domains}, {"x", &ents}, {"a", h}}}
+		s.call = func() string {
+			z1, err1 := iop.BuildRatioShuffledVectors(num, den, beta, form, d)
+			z2, err2 := iop.BuildRatioCopyConstraint(num, sigma, beta, gamma, form, d)
+			h2, err3 := iop.Evaluate(f, nil, iop.Form{Layout: iop.BitReverse, Basis: iop.LagrangeCoset}, ents...)
+			q, err4 := iop.DivideByXMinusOne(h, domains)
+			return deepHash(z1) + c18Err(err1) + deepHash(z2) + c18Err(err2) + deepHash(h2) + c18Err(err3) + deepHash(q) + c18Err(err4)
+		}
+		return s
+	})
+	reg("kzglagrange", func(r *rng, shape int) *c18Sess {
+		// ToLagrangeG1: its butterflies go parallel for m >= 8. NewSRS: same (size, alpha) -> same SRS
+		size := c18Pick(shape, 2, 4, 32, func() int { return 2 << r.intn(5) })
+		if c18Par(shape) {
+			size = 64
+		}
+		alpha := r.bigBits(200)
+		if shape > 2 && r.intn(4) == 0 {
+			alpha = big.NewInt(-1) // the balanced SRS (filled by parallel.Execute)
+			size = size * 8
+		}
+		srs, err := kzg.NewSRS(uint64(size), alpha)
+		if err != nil {
+			panic(err)
+		}
+		coeffs := c18Clone(srs.Pk.G1)
+		s := &c18Sess{args: []c18Arg{{"coeffs", &coeffs}, {"alpha", alpha}}}
+		s.call = func() string {
+			lag, err := kzg.ToLagrangeG1(coeffs)
+			srs2, err1 := kzg.NewSRS(uint64(size), alpha)
+			return deepHash(&lag) + c18Err(err) + deepHash(srs2) + c18Err(err1)
+		}
+		return s
+	})
+	reg("polynomial", func(r *rng, shape int) *c18Sess {
+		n1 := c18Pick(shape, 1, 2, 40, func() int { return 1 + r.intn(20) })
+		n2 := c18Pick(shape, 1, 1, 33, func() int { return 1 + r.intn(20) })
+		p1, p2 := polynomial.Polynomial(rfrs(r, n1)), polynomial.Polynomial(rfrs(r, n2))
+		c := rfr(r)
+		nv := c18Pick(shape, 1, 2, 6, func() int { return 1 + r.intn(5) })
+		ml := polynomial.MultiLin(rfrs(r, 1<<nv))
+		q, hh := rfrs(r, nv), rfrs(r, nv)
+		vals := rfrs(r, c18Pick(shape, 1, 2, 9, func() int { return 1 + r.intn(9) }))
+		s := &c18Sess{args: []c18Arg{{"p1", &p1}, {"p2", &p2}, {"c", &c}, {"m", &ml}, {"q", &q}, {"h", &hh}, {"v", &vals}}}
+		s.call = func() string {
+			var sum, dif, sc polynomial.Polynomial
+			sum.Add(p1, p2)
+			dif.Sub(p1, p2)
+			sc.Scale(&c, p1)
+			ev := p1.Eval(&c)
+			cl := p1.Clone()
+			cl.AddConstantInPlace(&c) // the clone is the caller's
+			out := deepHash(&sum) + deepHash(&dif) + deepHash(&sc) + deepHash(&ev) + deepHash(&cl) + boolStr(p1.Equal(p2)) + p1.Text(10)
+			mc := ml.Clone()
+			mc.Fold(c)
+			var eq polynomial.MultiLin = make([]fr.Element, 1<<nv)
+			eq[0].SetOne()
+			eq.Eq(q)
+			msum, ee := ml.Sum(), polynomial.EvalEq(q, hh)
+			ip := polynomial.InterpolateOnRange(vals)
+			return out + deepHash(&mc) + deepHash(&eq) + deepHash(&msum) + deepHash(&ee) + deepHash(&ip)
 		}
 		return s
 	})
